@@ -263,11 +263,11 @@ func (g *gen) govOp() CStep {
 
 func (g *gen) transfer() CStep {
 	r := g.r
-	classes := []string{"zero", "one", "small", "small", "exact", "over", "huge", "junk"}
+	classes := []string{"zero", "one", "small", "small", "exact", "over", "huge", "junk", "neg", "neghuge"}
 	if g.cfg.Twin {
 		// twin ("no effect") comparisons need balances that never flip a later outcome: nobody is drained;
 		// fee-stage failures come from dedicated poor accounts instead (op "poor")
-		classes = []string{"zero", "one", "small", "small", "junk", "huge"}
+		classes = []string{"zero", "one", "small", "small", "junk", "huge", "neg"}
 	}
 	return CStep{Op: "transfer", A: r.Intn(8), B: r.Intn(8), Amt: classes[r.Intn(len(classes))], Local: r.Chance(0.3), BadSig: r.Chance(0.05)}
 }
